@@ -36,6 +36,7 @@ type armInfo struct {
 	calls   []armCall
 	panics  bool // some path panics explicitly
 	nopanic bool // some path returns
+	silent  bool // some path returns without having handed the encoder anything
 	trunc   bool
 }
 
@@ -213,6 +214,9 @@ func c3ArmSSA(c *Ctx, fn *ssa.Function, kv int64) *armInfo {
 					seenCall[key] = true
 					ai.calls = append(ai.calls, ac)
 				}
+				if ac.onEnc {
+					return "enc"
+				}
 				return ""
 			}
 			return ""
@@ -224,6 +228,9 @@ func c3ArmSSA(c *Ctx, fn *ssa.Function, kv int64) *armInfo {
 			ai.panics = true
 		} else {
 			ai.nopanic = true
+			if !strings.Contains(sq, "enc") {
+				ai.silent = true
+			}
 		}
 	}
 	return ai
